@@ -84,12 +84,10 @@ def new_check(a):
                     "condition is satisfied on a non-empty history/population, or the tree is compound")
 
 
-def explore(ck, mt, a):
-    ck.exhaustive = True
+def sec_histories(ck, mt, a):
     thorough = a.tier == "thorough"
     import warnings
     warnings.simplefilter("ignore")
-
     # ---------------------------------------------------------------- histories
     r = run_tlc("term/MC_TermThorough" if thorough else "term/MC_TermQuick", workers=1, timeout=3000)
     if r.violated:
@@ -120,6 +118,10 @@ def explore(ck, mt, a):
         ck.trace()
     ck.sample({"history": r.printed[7]["hist"], "satisfied": [cat[i - 1] for i in r.printed[7]["sat"][:3]]})
 
+def sec_populations(ck, mt, a):
+    thorough = a.tier == "thorough"
+    import warnings
+    warnings.simplefilter("ignore")
     # ---------------------------------------------------------------- populations
     r = run_tlc("term/MC_TermPop", cfg="MC_TermPop_thorough.cfg" if thorough else "MC_TermPop.cfg", workers=1, timeout=3000)
     if r.violated:
@@ -158,12 +160,16 @@ def explore(ck, mt, a):
         ck.trace()
     ck.sample({"population": r.printed[9]["pop"], "energies": r.printed[9]["popE"], "verdicts": r.printed[9]["v"]})
 
+def sec_trees(ck, mt, a, part=0, parts=1):
+    thorough = a.tier == "thorough"
+    import warnings
+    warnings.simplefilter("ignore")
     # ---------------------------------------------------------------- trees
     r = run_tlc("term/TermTree", cfg="MC_TermTree_thorough.cfg" if thorough else "MC_TermTree_quick.cfg",
-                workers=1, timeout=3000, heap="6g")
+                workers=1, timeout=3000, heap="6g", env={"TREE_PARTS": str(parts), "TREE_PART": str(part)})
     if r.violated:
         ck.violation("spec:" + r.violated, {"tlc": r.out[-4000:]}, "TLC: design property %s violated in TermTree" % r.violated)
-    ck.mc(r, "TermTree")
+    ck.mc(r, "TermTree" if parts == 1 else "TermTree[part %d/%d]" % (part + 1, parts))
     # two independent families of leaves; each leaf's truth is controlled by one stub attribute
     families = [
         lambda: [mt.VTR(0.5, 0.0), mt.EvaluationLimits(generations=2), mt.SolverInterrupt()],
@@ -243,6 +249,25 @@ def explore(ck, mt, a):
         ck.trace()
     ck.sample({"tree": r.printed[len(r.printed) // 2]["tree"], "valuation": r.printed[len(r.printed) // 2]["val"],
                "sat": r.printed[len(r.printed) // 2]["sat"], "info": r.printed[len(r.printed) // 2]["info"]})
+
+def explore(ck, mt, a):
+    """quick: the three sections one after the other; thorough: the sections (and four parts of the tree catalogue) in
+    forked children running side by side, merged into ck"""
+    ck.exhaustive = True
+    thorough = a.tier == "thorough"
+    if not thorough or getattr(a, "selftest", False):
+        sec_histories(ck, mt, a)
+        sec_populations(ck, mt, a)
+        sec_trees(ck, mt, a)
+    else:
+        from harness.c08_nmpw import _Forked
+        parts = 4
+        jobs = [_Forked(lambda c, a_, corrupt, light: sec_histories(c, mt, a_), ck, a),
+                _Forked(lambda c, a_, corrupt, light: sec_populations(c, mt, a_), ck, a)]
+        for p in range(parts):
+            jobs.append(_Forked((lambda p: lambda c, a_, corrupt, light: sec_trees(c, mt, a_, p, parts))(p), ck, a))
+        for j in jobs:
+            j.join()
     ck.assumptions = ["tolerances are dyadic rationals >= 0 and energies small integers or +inf, so IEEE arithmetic is exact",
                       "NormalizedChangeOverGeneration is specified in its implemented cross-multiplied form with IEEE "
                       "semantics for +inf (the documented quotient form is 0/0 or inf/inf there)",
